@@ -274,6 +274,8 @@ let run_bw (c : case) =
     | "values" -> M.bw_build_with_values kind nfb (List.map (fun (p, v) -> (nlist p, mz_of_z (Z.of_string v))) c.pats)
     | "with_values" -> M.bw_build_with_values M.Standard (n_of_int 16) (List.map (fun (p, v) -> (nlist p, mz_of_z (Z.of_string v))) c.pats)
     | e -> failwith ("unknown entry " ^ e) in
+  (* the static constructors ARE the builder with default options (model: one definition) *)
+  if c.entry = "new" || c.entry = "with_values" then pr "DEFAULTB 1\n";
   match r with
   | M.Err k -> pr "BUILD err:%s\n" (err_name k)
   | M.Panic _ -> pr "BUILD panic\n"
@@ -395,6 +397,8 @@ let run_cw (c : case) =
     | "values" -> M.cw_build_with_values kind nfb (List.map2 (fun p (_, v) -> (p, mz_of_z (Z.of_string v))) cps c.pats)
     | "with_values" -> M.cw_build_with_values M.Standard (n_of_int 16) (List.map2 (fun p (_, v) -> (p, mz_of_z (Z.of_string v))) cps c.pats)
     | e -> failwith ("unknown entry " ^ e) in
+  (* the static constructors ARE the builder with default options (model: one definition) *)
+  if c.entry = "new" || c.entry = "with_values" then pr "DEFAULTB 1\n";
   match r with
   | M.Err k -> pr "BUILD err:%s\n" (err_name k)
   | M.Panic _ -> pr "BUILD panic\n"
